@@ -142,6 +142,11 @@ pub mod stubs {
     pub fn block_on_stub<F: core::future::Future>(f: F) -> F::Output {
         crate::tpl::block(f)
     }
+    /// Cheapest model of `String::from_utf8_lossy`, for pure totality harnesses: the decoded text is
+    /// irrelevant there, only the slicing/advancing around the call is under test.
+    pub fn lossy_empty(_v: &[u8]) -> Cow<'_, str> {
+        Cow::Borrowed("")
+    }
     pub fn bm_new() -> bytes::BytesMut {
         bytes::BytesMut::with_capacity(256)
     }
